@@ -147,11 +147,11 @@ class Number(Parser):
         stream.take()
         while stream.peek().isdecimal():
             out += stream.take()
-        try:
-            output.append(int(out))
-        except ValueError:
-            # more digits than int() converts
+        if len(out) > 18:
+            # counts and sizes never need more; int() and str() of very long
+            # integers raise ValueError
             stream.error('<number>')
+        output.append(int(out))
 
     def __str__(self):
         return '<number>'
